@@ -36,7 +36,7 @@ func fqRead(data []byte) (items []fqItem, panicked bool) {
 	items = []fqItem{}
 	var kept []*fastq.Fastq // nil = error item; records are projected after the iteration (they must stay what they were)
 	panicked, _ = catch(func() {
-		seq := fastq.Reader(bytes.NewReader(data))
+		seq := fastq.Reader(deliver(data))
 		if fqPairedWith != nil { // consumed in lockstep with a reader over another text (paired-end files are read like this)
 			next, stop := iter.Pull2(fastq.Reader(bytes.NewReader(fqPairedWith)))
 			defer stop()
@@ -61,6 +61,22 @@ func fqRead(data []byte) (items []fqItem, panicked bool) {
 			}
 		}
 	})
+	// the consumer appends to the fields of the records it holds (names get suffixes, reads get trimmed and extended): what it
+	// appends to one field must not show in another field or in another record
+	if fqGrow {
+		p, _ := catch(func() {
+			for _, f := range kept {
+				if f != nil {
+					n1, n2, n3 := len(f.Name), len(f.Sequence), len(f.Quals)
+					grown(f.Name)
+					grown(f.Sequence)
+					grown(f.Quals)
+					f.Name, f.Sequence, f.Quals = f.Name[:n1], f.Sequence[:n2], f.Quals[:n3]
+				}
+			}
+		})
+		panicked = panicked || p
+	}
 	for _, f := range kept {
 		if f == nil {
 			items = append(items, fqErr)
@@ -70,6 +86,9 @@ func fqRead(data []byte) (items []fqItem, panicked bool) {
 	}
 	return
 }
+
+// fqGrow: set per session
+var fqGrow bool
 
 func fqItemsEqual(a, b []fqItem) bool {
 	if len(a) != len(b) {
@@ -332,6 +351,7 @@ func fastqDrive(args []string) error {
 			ev.Items, ev.Panic = fqRead(data)
 			tw.emit(ev)
 		}
+		readDelivery, fqGrow = []int{0, 0, 1, 0, 2, 3}[sid%6], sid%3 == 1
 		fqPairedWith = nil
 		if sid%5 == 3 {
 			fqPairedWith = []byte("@mate/2\nTTTTGGGGCCCCAAAA\n+\nIIIIHHHHGGGGFFFF\n@m2/2\nAC\n+\n!!\n@m3/2\n\n+\n\n")
